@@ -45,6 +45,10 @@ type Manager struct {
 	byMAC    map[string]string   // MAC -> session ID
 	byIP     map[string]string   // IP -> session ID
 
+	// terminating holds the sessions whose termination is in progress. It is
+	// kept apart from Session.State, which the other operations overwrite.
+	terminating map[string]struct{}
+
 	stats ManagerStats
 
 	ctx    context.Context
@@ -57,15 +61,16 @@ func NewManager(config ManagerConfig, auth Authenticator, allocator AddressAlloc
 	ctx, cancel := context.WithCancel(context.Background())
 
 	return &Manager{
-		config:    config,
-		logger:    logger,
-		auth:      auth,
-		allocator: allocator,
-		sessions:  make(map[string]*Session),
-		byMAC:     make(map[string]string),
-		byIP:      make(map[string]string),
-		ctx:       ctx,
-		cancel:    cancel,
+		config:      config,
+		logger:      logger,
+		auth:        auth,
+		allocator:   allocator,
+		sessions:    make(map[string]*Session),
+		byMAC:       make(map[string]string),
+		byIP:        make(map[string]string),
+		terminating: make(map[string]struct{}),
+		ctx:         ctx,
+		cancel:      cancel,
 	}
 }
 
@@ -300,6 +305,10 @@ func (m *Manager) AssignAddress(ctx context.Context, sessionID string, ipv4PoolI
 		m.mu.Unlock()
 		return fmt.Errorf("session not found: %s", sessionID)
 	}
+	if _, ending := m.terminating[sessionID]; ending {
+		m.mu.Unlock()
+		return fmt.Errorf("session terminated: %s", sessionID)
+	}
 	m.mu.Unlock()
 
 	// Allocate IPv4
@@ -310,12 +319,16 @@ func (m *Manager) AssignAddress(ctx context.Context, sessionID string, ipv4PoolI
 		}
 
 		m.mu.Lock()
-		if m.sessions[sessionID] != session || session.State == StateTerminating {
+		if _, ending := m.terminating[sessionID]; ending || m.sessions[sessionID] != session {
 			// The session was terminated while the address was being allocated;
-			// its termination has released what it held then, not this address
+			// its termination releases what it held then, not this address -
+			// unless the allocator handed out the address it already held
+			held := ip.Equal(session.IPv4)
 			m.mu.Unlock()
-			if err := m.allocator.ReleaseIPv4(context.WithoutCancel(ctx), ip); err != nil {
-				m.logger.Warn("Failed to release IPv4", zap.String("session_id", sessionID), zap.Error(err))
+			if !held {
+				if err := m.allocator.ReleaseIPv4(context.WithoutCancel(ctx), ip); err != nil {
+					m.logger.Warn("Failed to release IPv4", zap.String("session_id", sessionID), zap.Error(err))
+				}
 			}
 			return fmt.Errorf("session terminated: %s", sessionID)
 		}
@@ -337,9 +350,10 @@ func (m *Manager) AssignAddress(ctx context.Context, sessionID string, ipv4PoolI
 			)
 		} else {
 			m.mu.Lock()
-			if m.sessions[sessionID] != session || session.State == StateTerminating {
+			if _, ending := m.terminating[sessionID]; ending || m.sessions[sessionID] != session {
+				held := ip.Equal(session.IPv6)
 				m.mu.Unlock()
-				if ip != nil {
+				if ip != nil && !held {
 					if err := m.allocator.ReleaseIPv6(context.WithoutCancel(ctx), ip); err != nil {
 						m.logger.Warn("Failed to release IPv6", zap.String("session_id", sessionID), zap.Error(err))
 					}
@@ -356,8 +370,10 @@ func (m *Manager) AssignAddress(ctx context.Context, sessionID string, ipv4PoolI
 	}
 
 	m.mu.Lock()
-	session.State = StateEstablishing
-	session.UpdatedAt = time.Now()
+	if _, ending := m.terminating[sessionID]; !ending {
+		session.State = StateEstablishing
+		session.UpdatedAt = time.Now()
+	}
 	m.mu.Unlock()
 
 	m.logger.Info("Address assigned",
@@ -480,14 +496,16 @@ func (m *Manager) TerminateSession(ctx context.Context, sessionID string, reason
 		return fmt.Errorf("session not found: %s", sessionID)
 	}
 
-	if session.State == StateTerminating {
+	if _, ending := m.terminating[sessionID]; ending {
 		// Another caller is already terminating this session (it is removed
 		// from the table when that completes); terminating it a second time
 		// would release its addresses twice, possibly after they were given
-		// to a new session
+		// to a new session. The session's state cannot tell: an operation
+		// that overlaps the termination may have overwritten it.
 		m.mu.Unlock()
 		return nil
 	}
+	m.terminating[sessionID] = struct{}{}
 
 	oldState := session.State
 	session.State = StateTerminating
@@ -537,6 +555,7 @@ func (m *Manager) TerminateSession(ctx context.Context, sessionID string, reason
 
 	// Remove session
 	delete(m.sessions, sessionID)
+	delete(m.terminating, sessionID)
 	m.mu.Unlock()
 
 	m.emitEvent(&SessionEvent{
